@@ -503,6 +503,10 @@ def check_nested_decoding(ctx: Ctx):
                     if f is not None and len(f.params) == 1 and "BIT_SIZE" in norm(f.node) and self_recursive(f):
                         gs = f
         if it is None or gs is None:
+            # a decoder that returns (value, bits consumed) needs no size function: decide what can be decided of it
+            cand = it or next((f for f in fi.nested.values() if self_recursive(f) and any("get_args" in norm(l_.iter) for l_ in q.for_loops(f.node))), None)
+            if cand is not None and _pair_protocol_violation(ctx, cand):
+                return
             raise AnchorError(fi.short, "the nested decoder (a self-recursive (bits, type, width) function started from interpret_as_qtype) and its size function were not found")
     loops = [l for l in q.for_loops(it.node) if "get_args" in norm(l.iter)]
     if len(loops) != 1:
@@ -514,6 +518,8 @@ def check_nested_decoding(ctx: Ctx):
     bits, width_p = it.params[0], it.params[2]
     rec = [c for c in q.calls(l) if norm(c.func) == it.name]
     if len(rec) != 1 or len(rec[0].args) != 3:
+        if _pair_protocol_violation(ctx, it):
+            return
         ctx.undecided(it.short, f"tuple branch: {len(rec)} recursive calls with (bits, type, width) in the element loop")
         return
     call = rec[0]
@@ -601,6 +607,22 @@ def check_nested_decoding(ctx: Ctx):
             ctx.undecided(fi.short, f"the decoded sequence `{norm(entry[0].args[0])[:60]}` does not come from format_outcome(...)")
         else:
             ctx.check(par == 1, "OR-FLOW", fi, "measurement-order input reversed exactly once before decoding", norm(entry[0].args[0])[:60], f"the reading is reversed {par} time(s) mod 2 between format_outcome and the decoder: interpret_as_qtype must turn the MSB-first reading into the LSB-first list the decoders take, exactly once", entry[0])
+
+
+def _pair_protocol_violation(ctx: Ctx, it: FuncInfo) -> bool:
+    """a decoder returning (value, bits consumed): the tuple branch must report the offset it advanced, not the number
+    of elements it decoded.  True when a violation was reported."""
+    for l in q.for_loops(it.node):
+        if "get_args" not in norm(l.iter):
+            continue
+        offs_ = [s_.target.id for s_ in ast.walk(l) if isinstance(s_, ast.AugAssign) and isinstance(s_.op, ast.Add) and isinstance(s_.target, ast.Name)]
+        lists_ = [c.func.value.id for c in q.method_calls(l, "append") if isinstance(c.func.value, ast.Name)]
+        for r_ in q.returns(it):
+            v_ = r_.value
+            if isinstance(v_, ast.Tuple) and len(v_.elts) == 2 and isinstance(v_.elts[1], ast.Call) and isinstance(v_.elts[1].func, ast.Name) and v_.elts[1].func.id == "len" and v_.elts[1].args and isinstance(v_.elts[1].args[0], ast.Name) and v_.elts[1].args[0].id in lists_ and offs_:
+                ctx.fail("OR-SEQ", it, "a nested tuple reports the bits it consumed", f"`{norm(r_)[:70]}` reports the NUMBER OF ELEMENTS of the decoded tuple as its width, while the loop advanced `{offs_[0]}` by the widths of the elements: the element after a nested tuple with a multi-bit member is read from the wrong offset", r_)
+                return True
+    return False
 
 
 def check_modmask(ctx: Ctx):
